@@ -36,14 +36,16 @@ OPS = {"Attribution", "DialSafety", "Whitelist"}
 GEN = {
     "quick": {"pair": ("SecureSwarmGen_pair.cfg", "mc"), "answer": ("SecureSwarmGen_answer_quick.cfg", "mc"),
               "auth": ("SecureSwarmGen_auth_quick.cfg", "mc"), "authwl": ("SecureSwarmGen_authwl_quick.cfg", "mc"),
+              "race": ("SecureSwarmGen_race_quick.cfg", "mc"),
               "mixed": ("SecureSwarmGen_mixed.cfg", "sim")},
     "thorough": {"pair": ("SecureSwarmGen_pair.cfg", "mc"), "answer": ("SecureSwarmGen_answer_thorough.cfg", "mc"),
-                 "auth": ("SecureSwarmGen_auth_thorough.cfg", "mc"), "mixed": ("SecureSwarmGen_mixed.cfg", "sim")},
+                 "auth": ("SecureSwarmGen_auth_thorough.cfg", "mc"), "race": ("SecureSwarmGen_race_thorough.cfg", "mc"),
+                 "mixed": ("SecureSwarmGen_mixed.cfg", "sim")},
 }
 # how many scripts of each (family, kind) are replayed; None = all
 CAP = {
-    "quick": {"pair": 40, "answer": 30, "auth": {"ssh": None, "p2pke": 36, "quic": 36}, "authwl": 20, "mixed": 40},
-    "thorough": {"pair": None, "answer": 400, "auth": {"ssh": None, "p2pke": 500, "quic": 400}, "mixed": 400},
+    "quick": {"pair": 40, "answer": 30, "auth": {"ssh": None, "p2pke": 36, "quic": 36}, "authwl": 20, "race": None, "mixed": 40},
+    "thorough": {"pair": None, "answer": 400, "auth": {"ssh": None, "p2pke": 500, "quic": 400}, "race": None, "mixed": 400},
 }
 SIM = {"quick": 40, "thorough": 400}
 
@@ -144,6 +146,23 @@ def scenario(beh, ev, auth_wire, op):
         steps = [("query" if w[0] == "q" else "sign") + "-" + role(w[1]) for w in auth_wire]
     dedup = [s for i, s in enumerate(steps) if i == 0 or steps[i - 1] != s]
     tells = [st for st in hist if st["a"] == "tell"]
+    # a call to (identity, M's address) while M's inbound handshake / connection exists at the caller
+    call = next((st for st in hist if st.get("p") == p and st["a"] in ("tell", "lookup") and st.get("t") == "M"), None)
+    if call is not None and any(st["a"] == "mdial" for st in hist):
+        i = hist.index(call)
+        before = [st["a"] for st in hist[:i]]
+        pre = "lookup-" if call["a"] == "lookup" else ""
+        ident = "wrong-identity" if call["x"] != "M" else "right-identity"
+        hello = next((st for st in reversed(hist[:i]) if st["a"] == "hello"), None)
+        if hello is not None and not (hello["k"] == "M" and hello["proof"] == "own"):
+            # the InitHello was refused, but it left a channel (without any key) for M's transport address behind
+            return pre + ident + "-over-unauthenticated-inbound-channel"
+        if hello is not None and "finish" not in before:
+            return pre + ident + "-during-inbound-handshake"
+        if hello is not None:
+            return pre + ident + "-after-inbound-handshake"
+        if any(a in before for a in ("present", "signed", "query")):
+            return pre + ident + "-over-inbound-connection"
     sender = next((st for st in hist if st.get("p") == p and st["a"] in ("tell", "reply", "msend")), None)
     if sender is not None and sender["a"] == "msend" and sender.get("role") == "dial" and dedup:
         return "-then-".join(dedup)
@@ -272,7 +291,10 @@ def run_pipeline(tier, replay_behaviour=None):
                 continue
             ctx = scenario(b, ev, auth_wire.get(beh), op)
             key = "C04:%s:%s/%s" % (op, SWARM.get(b["kind"], b["kind"]), ctx)
-            if ev["ev"] == "deliver":
+            if ev["ev"] == "lookup":
+                what = "%s false on a real %s: LookupPublicKey of %s for the address (identity %s, transport address of %s) returned the key of %s (script %s, family %s, event line %d)" % (
+                    op, SWARM.get(b["kind"]), ev["from"], ev["x"], ev["t"], ev["lk"], ctx, b["fam"], lineno)
+            elif ev["ev"] == "deliver":
                 what = "%s false on a real %s: payload %d handed to %s's %s callback with Src=%s, in-handler lookup=%s (script %s, family %s, whitelist %s, event line %d)" % (
                     op, SWARM.get(b["kind"]), ev["p"], ev["at"], "ServeAsk" if ev["ask"] else "Receive", ev["src"], ev["lk"], ctx, b["fam"],
                     json.dumps(b["wl"], sort_keys=True), lineno)
